@@ -33,6 +33,8 @@ def run(rep, tier):
     rep.rule("R5", "float version numbers 1.0 ... 3.9 convert to the right (major, minor)")
     rep.rule("R8", "xdis.std.Bytecode constructs its base class with dup_lines=False (dis reports a line only where it changes)")
     rep.rule("R7", "like dis, xdis.std.get_instructions and iteration over xdis.std.Bytecode leave out the inline CACHE entries of 3.11+ code unless show_caches is given")
+    rep.rule("R9", "repeating a question gives dis's answer again: nothing the std API runs (xdis.std, the decoder, label and line-start finders, instruction records, opcode "
+                   "tables) writes shared state or hands out a memoised mutable result that a caller changes (C18 R1/R3/R4, restated for these modules)")
     rep.rule("R6", "what the API returns is what the shared machinery computes: for every opcode table make_std_api can select, the decoder (C02 widths/operands, "
                    "C03 operand values, C04 targets and labels) and the line-start finders (C05 rules) agree with Lib/dis.py of that version")
     T = tables()
@@ -392,6 +394,12 @@ def run(rep, tier):
         c05.run(sub, tier)
         # C05-R7 is about the default of xdis.bytecode.Bytecode; xdis.std's own Bytecode class chooses the value itself (R8 below)
         merge_sub(rep, sub, "R6", "C05", only_rules=tuple(r for r in ("R1", "R2", "R3", "R4", "R5", "R6")))
+        # R9: a second question gets the first one's answer only if nothing is kept in between (C18's audit, for everything the std API runs)
+        from . import c18
+        sub18 = SubReport("C18", tier=tier)
+        c18.run(sub18, tier)
+        merge_sub(rep, sub18, "R9", "C18", only_rules=("R1", "R3", "R4"),
+                  only_constructs=lambda c_: c_.startswith(("xdis.std.", "xdis.bytecode.", "xdis.wordcode.", "xdis.cross_dis.", "xdis.instruction.", "xdis.opcodes.", "xdis.op_imports.")))
     # ---------------------------------------------------------------- R8 xdis.std.Bytecode asks for dis's line semantics
     dl = dl_seen[0] if dl_seen else "<findlinestarts not called>"
     rep.ob("R8", "xdis.std._StdApi.__init__.Bytecode.__init__", "dup_lines=False", dl is False, expected="the line-start finder is asked for dup_lines=False", derived=show(dl),
